@@ -26,6 +26,35 @@ Theorem C19_imported_files : forall (look : module -> list str) l f acc,
 Proof. exact imported_files_spec. Qed.
 Print Assumptions C19_imported_files.
 
+(* WHOSE files: the build deps of a module (second component of build_env) are exactly the is_build_dep modules of
+   its import list other than itself (proofs/BuildDeps.v) — and that list is exactly the selected modules reachable
+   through active imports, cycles included (C04_imports_are_the_reachable_modules, proofs/ImportsClosure.v). So every
+   is_build_dep module a module uses or depends on TRANSITIVELY is waited for: *)
+Require Laze.proofs.ImportsClosure.
+Require Import Laze.proofs.BuildDeps Laze.proofs.ImportsBuild.
+Theorem C19_build_deps_of_a_module : forall genv ms provs self e bd,
+  build_env genv ms provs self = Ok (e, bd) ->
+  (forall y, In y (odflt [] bd) -> In y (imports_postorder ms provs self) /\ is_dep_of self y = true) /\
+  (forall d, In d (imports_postorder ms provs self) -> is_dep_of self d = true ->
+             exists y, In y (odflt [] bd) /\ module_eqb d y = true).
+Proof. exact build_env_build_deps. Qed.
+Print Assumptions C19_build_deps_of_a_module.
+
+Theorem C19_transitive_build_deps_are_waited_for :
+  forall t pf bd0 b, load t pf bd0 = Ok b ->
+  forall builder bname binary cli_selects disabled0 rst, In binary (all_modules b) ->
+  resolve_build b builder bname binary cli_selects disabled0 = Ok rst ->
+  forall genv self e bd d, In self (sel rst) ->
+  build_env genv (sel rst) (provby rst) self = Ok (e, bd) ->
+  ImportsClosure.reach (sel rst) (provby rst) self d -> is_dep_of self d = true ->
+  exists y, In y (odflt [] bd) /\ module_eqb d y = true.
+Proof.
+  intros t pf bd0 b HL builder bname binary cli_selects disabled0 rst Hb HR genv self e bd d Hs HB Hreach Hdep.
+  apply (proj2 (build_env_build_deps _ _ _ _ _ _ HB)); [|exact Hdep].
+  apply (build_imports_are_reachable t pf bd0 b HL builder bname binary cli_selects disabled0 rst Hb HR self d Hs). exact Hreach.
+Qed.
+Print Assumptions C19_transitive_build_deps_are_waited_for.
+
 (* global build deps are added to the build deps of every module that is not one itself *)
 Theorem C19_global_included : forall gds g acc,
   In g gds -> exists y, In y (fold_left (fun acc d => mset_insert d acc) gds acc) /\ module_eqb g y = true.
